@@ -52,11 +52,17 @@ theorem message_same_cells (l : Host.LCD) (g : Grid) (top bottom : Option (List 
 theorem message_one_row_counterexample :
     let o := Fw.writeAligned (blank 16 1) 16 0 1 ['b'] true Align.left
     o.prints ≠ [] ∧ ∀ p ∈ o.prints, p.row = 1 := by
-  sorry
+  decide
 
 theorem clear_same_cells (l : Host.LCD) (g : Grid) (hm : Mirrors l g) :
     Mirrors (Host.clear l) (blank l.cols l.rows) := by
-  sorry
+  obtain ⟨_, _, hc, hr⟩ := hm
+  refine ⟨rfl, ⟨?_, ?_⟩, hc, hr⟩
+  · simp [blank, Host.clear]
+  · intro r hr'
+    simp only [blank] at hr'
+    rw [List.eq_of_mem_replicate hr']
+    simp [blankRow, Host.clear]
 
 /-- rows other than the addressed one are untouched, on both sides -/
 theorem other_rows_untouched (g : Grid) (cols col row : Int) (text : List Char) (clear : Bool) (align : Align)
@@ -112,22 +118,55 @@ def BlRel (b : Fw.Backlight) (l : Host.LCD) : Prop :=
   b.pin = (if l.backlightOn then l.brightness else 0)
 
 theorem backlight_init : BlRel ({} : Fw.Backlight) (Host.LCD.create 16 2) := by
-  sorry
+  simp [BlRel, Host.LCD.create]
 
 /-- display/backlight/brightness keep the pin at 0 when off and at the last brightness when on -/
 theorem backlight_step (b : Fw.Backlight) (l : Host.LCD) (h : BlRel b l) :
     (∀ on, BlRel (b.setOn on) (Host.backlight l on)) ∧ (∀ on, BlRel (b.setOn on) (Host.display l on)) ∧
     (∀ lv l', Host.setBrightness l lv = .ok l' → BlRel (b.setLevel lv) l') := by
-  sorry
+  obtain ⟨h1, h2, h3, h4, h5⟩ := h
+  refine ⟨?_, ?_, ?_⟩
+  · intro on
+    cases on <;> simp [BlRel, Fw.Backlight.setOn, Host.backlight, h2, h3, h4]
+  · intro on
+    cases on <;> simp [BlRel, Fw.Backlight.setOn, Host.display, h2, h3, h4]
+  · intro lv l' hl
+    unfold Host.setBrightness at hl
+    split at hl
+    · rename_i hlv
+      cases hl
+      have hc : Fw.clampLevel lv = lv := by unfold Fw.clampLevel; split_ifs <;> omega
+      cases hon : b.on
+      · have : l.backlightOn = false := by rw [← h1, hon]
+        simp [BlRel, Fw.Backlight.setLevel, hc, hon, this, hlv.1, hlv.2, h5]
+      · have : l.backlightOn = true := by rw [← h1, hon]
+        simp [BlRel, Fw.Backlight.setLevel, hc, hon, this, hlv.1, hlv.2]
+    · cases hl
 
 /-- custom glyphs are uploaded with exactly the eight 5-bit rows the host stores -/
 theorem glyph_rows (slot : Int) (bitmap rows : List Int) (h : Host.glyph slot bitmap = .ok rows)
     (h8 : bitmap.length = 8) :   -- the transpiler rejects any other length
    
     rows = Fw.glyphRows bitmap ∧ rows.length = 8 ∧ ∀ v ∈ rows, 0 ≤ v ∧ v < 32 := by
-  sorry
+  unfold Host.glyph at h
+  split at h
+  · cases h
+  · simp only [] at h
+    split at h
+    · cases h
+    · cases h
+      have : (List.map (fun x => x % 32) bitmap).take 8 = List.map (fun x => x % 32) bitmap := by
+        apply List.take_of_length_le; simp [h8]
+      rw [this]
+      refine ⟨rfl, by simp [h8], ?_⟩
+      intro v hv
+      obtain ⟨a, _, rfl⟩ := List.mem_map.mp hv
+      omega
 
 example : Mirrors (Host.LCD.create 16 2) (blank 16 2) := by
-  sorry
+  refine ⟨rfl, ⟨by simp [blank, Host.LCD.create], ?_⟩, by decide, by decide⟩
+  intro r hr
+  rw [List.eq_of_mem_replicate hr]
+  simp [blankRow, Host.LCD.create]
 
 end Reduino.Props.C17
